@@ -59,7 +59,7 @@ Proof. intros a. unfold chain, heldm, ms_init, get; cbn. repeat split; try discr
 
 Lemma micro_preserves s st s' out log : MI s log -> micro s st = Some (s', out) -> MI s' (log ++ out).
 Proof.
-  intros Hi Hm. destruct st as [a3 ty data| | |a rty last|n|]; unfold micro in Hm.
+  intros Hi Hm. destruct st as [a3 ty data| | |a rty last|n]; unfold micro in Hm.
   - (* MBegin *)
     destruct (ms_pend s) eqn:Ep; try discriminate.
     pose proof (alloc_sseq_spec (ms_tab s) (canon a3)) as Ha. destruct (alloc_sseq (ms_tab s) (canon a3)) as [t1 sq].
@@ -112,19 +112,6 @@ Proof.
     + specialize (Hh b). rewrite E in Hh. apply app_eq_nil in Hh as [Hg Hh']. rewrite Hg, Hh'. rewrite E in H1, H2. rewrite app_nil_r.
       split; [exact H1|]. split; [exact H2|]. intros; reflexivity.
   - injection Hm as <- <-. rewrite app_nil_r. exact Hi.
-  - (* MExpire: releases like the receiver does *)
-    pose proof (on_expire_spec (ms_tab s) (ms_now s)) as Hu. destruct (on_expire (ms_tab s) (ms_now s)) as [t1 gs].
-    destruct Hu as (Hc & Hh & _).
-    assert (Hq : forall b, n_sseq (get t1 b) = n_sseq (get (ms_tab s) b)) by (intros b; destruct (Hc b) as (_ & B & _); exact B).
-    injection Hm as <- <-. intros b. destruct (Hi b) as (H1 & H2 & H3).
-    unfold chain in *. cbn [ms_tab ms_pend] in *. rewrite to_node_app, to_node_grp_msgs, Hq.
-    assert (Hcase : padm b (ms_pend s) = [] \/ (heldm (ms_tab s) b = [])).
-    { unfold padm. destruct (ms_pend s) as [| |c m ok] eqn:Ep; auto. destruct ok; auto. destruct (addr_eqb_spec b c) as [->|]; auto. right. eapply H3. reflexivity. }
-    destruct Hcase as [E|E].
-    + rewrite E in *. cbn [app] in *. rewrite <- app_assoc. rewrite (app_assoc (grps_of b gs)), Hh.
-      split; [exact H1|]. split; [exact H2|]. intros m Em. unfold padm in E. rewrite Em, addr_eqb_refl in E. discriminate.
-    + specialize (Hh b). rewrite E in Hh. apply app_eq_nil in Hh as [Hg Hh']. rewrite Hg, Hh'. rewrite E in H1, H2. rewrite app_nil_r.
-      split; [exact H1|]. split; [exact H2|]. intros; reflexivity.
 Qed.
 
 Lemma micro_run_inv ss : forall s log s' out, MI s log -> micro_run s ss = Some (s', out) -> MI s' (log ++ out).
